@@ -73,6 +73,7 @@ class Window:
         self.events = []          # ('R', n) / ('W', bytes) / ('T', fields) behind the DATA line
         self.state_before = None
         self.forks = 0
+        self.wlens = []           # lengths of the write()/writev() calls on the pipes
 
 
 def parse_windows(result_dir):
@@ -121,7 +122,7 @@ def parse_windows(result_dir):
                 else:
                     cur.q.append('x:s:%d' % (os.WTERMSIG(st) if os.WIFSIGNALED(st) else 0))
             elif f[0] in ('write', 'writev'):
-                cur.q.append('w:%s:%s' % (f[3], ename(f[4])))
+                cur.q.append('w:%s:%s' % (f[3], ename(f[4]))); cur.wlens.append(int(f[2]))
             elif f[0] == 'close':
                 cur.q.append('c:%d:%s' % (1 if f[2] == '0' else 0, ename(f[3])))
     return wins
@@ -182,7 +183,7 @@ def model_line(win, stream, date=None, msgid=None, comstate='40'):
 
 
 FIELDS = ['codes', 'rc', 'freed', 'accepted', 'died', 'desync', 'traceleft', 'openfds', 'errno', 'logsize', 'msg', 'env',
-          'comstate', 'goodrcpt', 'rcptcount', 'mailfrom', 'nrest']
+          'comstate', 'goodrcpt', 'rcptcount', 'mailfrom', 'wlens', 'nrest']
 
 
 def parse_model(out):
@@ -216,6 +217,8 @@ def compare_window(win, m, paylen, handoff, follow_expected_rest, reads_all):
         return 'syscall sequence differs: the model asked for another call than the oracle has (trace %s)' % ' '.join(win.q)[:300]
     if m['traceleft'] != '0':
         return 'syscall sequence differs: %s oracle entries were never asked for by the model (trace %s)' % (m['traceleft'], ' '.join(win.q)[:300])
+    if '354' not in m['codes']:
+        paylen = 0          # no 354: whatever the client sends next is read by the command loop
     codes, state, follow = split_window(win, paylen)
     if m['died'] == '1':
         return None if not follow else 'model: process ends inside DATA; implementation went on'
@@ -226,6 +229,9 @@ def compare_window(win, m, paylen, handoff, follow_expected_rest, reads_all):
         for k, v in got.items():
             if m[k] != v:
                 return 'state %s impl=%s model=%s' % (k, v, m[k])
+    mw = [] if m['wlens'] == '-' else [int(x) for x in m['wlens'].split(',')]
+    if mw != win.wlens:
+        return 'lengths of the writes to qmail-queue impl=%s model=%s' % (win.wlens[:40], mw[:40])
     if str(open_fds_impl(win)) != m['openfds']:
         return 'open pipe descriptors impl=%d model=%s' % (open_fds_impl(win), m['openfds'])
     mm, me = vlib.unhex(m['msg']), vlib.unhex(m['env'])
@@ -236,8 +242,13 @@ def compare_window(win, m, paylen, handoff, follow_expected_rest, reads_all):
                 return 'message bytes impl=%r.. model=%r.. (lengths %d/%d)' % (hm[:60], mm[:60], len(hm), len(mm))
             if he != me:
                 return 'envelope bytes impl=%r model=%r' % (he, me)
-        elif not mm.startswith(hm) or not me.startswith(he):
-            return 'what the child read is not a prefix of what the model says was written'
+        else:
+            # the date is only known when the child read that far
+            k = mm.find(b'>; ')
+            if not DATE_RE.match(hm[k + 3:k + 34]) and k >= 0:
+                hm, mm = hm[:k + 3], mm[:max(k + 3, 0)] if len(hm) >= k + 3 else mm
+            if not mm.startswith(hm) or not me.startswith(he):
+                return 'what the child read is not a prefix of what the model says was written'
     elif win.forks and (mm or me) and reads_all:
         return 'model says bytes were written but the child recorded nothing'
     if follow_expected_rest is not None and m['rest'] != follow_expected_rest:
